@@ -425,6 +425,8 @@ func lexInsideAction(l *lexer) stateFn {
 			itemCharConstant != l.lastType &&
 			itemBool != l.lastType &&
 			itemField != l.lastType &&
+			itemRightParen != l.lastType &&
+			itemRightBrackets != l.lastType &&
 			itemChar != l.lastType &&
 			itemTrans != l.lastType {
 			l.backup()
@@ -442,6 +444,8 @@ func lexInsideAction(l *lexer) stateFn {
 			itemCharConstant != l.lastType &&
 			itemBool != l.lastType &&
 			itemField != l.lastType &&
+			itemRightParen != l.lastType &&
+			itemRightBrackets != l.lastType &&
 			itemChar != l.lastType &&
 			itemTrans != l.lastType {
 			l.backup()
